@@ -37,6 +37,7 @@ type Ctx struct {
 	// looking through functions that are new with respect to the frozen table (terms.go)
 	soleCalls map[*ssa.Function]ssa.CallInstruction
 	tenv      *termEnv
+	retParam  map[*ssa.Function]int
 }
 
 // theCtx: the program being analysed (one per process; used by the control-flow helpers to look through new helpers).
